@@ -52,6 +52,24 @@ fn gen(prop: &str, tier: Tier, seed: u64, em: &mut Emitter) {
         "C01" => sm::gen_c01(tier, seed, em),
         "C02" => sm::gen_c02(tier, seed, em),
         "C03" => sm::gen_c03(tier, seed, em),
+        // cross-target records (Miri: 32-bit, big-endian)
+        "XT" => {
+            newtypes::gen_cross(em, if cfg!(feature = "cfg_std") { 0 } else { 1 });
+            sm::gen_cross(em);
+            for (c, n, v) in [(0i64, 0i64, 0i64), (15, 31, 16383), (3, 5, 128), (7, 9, 8192), (1, 2, 37), (2, 31, 9472)] {
+                em.emit_k("cross/cc14", 70, vec![c, n, v]);
+            }
+            for k in 0..8i64 {
+                for (num, v) in [(0i64, 0i64), (16383, 127), (128, 1), (8192, 100), (420, 37)] {
+                    let v = if k == 1 || k == 5 { v * 129 % 16384 } else { v };
+                    for ord in 0..2 {
+                        em.emit_k("cross/nrpn", 90, vec![k, 5, num, v, ord]);
+                    }
+                }
+            }
+            em.emit_k("cross/scanner", 80, vec![0, 176, 3, 5, 0, 176, 35, 6, 0, 177, 3, 1, 2, 0, 0, 0, 0, 176, 35, 7]);
+            em.emit_k("cross/scanner", 110, vec![0, 179, 99, 3, 0, 179, 98, 36, 0, 179, 38, 24, 0, 179, 6, 117, 0, 179, 96, 1]);
+        }
         "C04" => newtypes::gen_c04(tier, seed, em, if cfg!(feature = "cfg_std") { 0 } else { 1 }),
         "C05" => newtypes::gen_c05(tier, seed, em, if cfg!(feature = "cfg_std") { 0 } else { 1 }),
         "C06" => sm::gen_c06(tier, seed, em),
